@@ -38,6 +38,7 @@ Proof.
   - reflexivity.
   - discriminate.
   - discriminate.
+  - discriminate.
   - reflexivity.
   - reflexivity.
   - reflexivity.
@@ -63,6 +64,7 @@ Proof.
     apply with_child_cur; [discriminate | intros y; rewrite (IHb Hn); reflexivity].
   - intros p b IHb Hn x. cbn [an nofn] in *. unfold visit_for_in.
     apply with_child_cur; [discriminate | intros y; rewrite (IHb Hn); reflexivity].
+  - discriminate.
   - intros p cs IH Hn x. cbn [an nofn] in *. unfold visit_switch. rewrite (IH Hn). reflexivity.
   - intros p l b IHb Hn x. cbn [an nofn] in *.
     apply with_child_cur; [discriminate | intros y; rewrite (IHb Hn); reflexivity].
